@@ -243,7 +243,16 @@ pub fn factor_lattice() -> Vec<i64> {
 }
 
 pub fn rand_factor(r: &mut Rng, lat: &[i64]) -> i64 {
-    match r.below(10) {
+    match r.below(11) {
+        10 => {
+            // a factor that aliases a small one modulo 2^16 / 2^32 / 2^53
+            let x = r.range_i64(-100, 100) + r.range_i64(1, 3) * *r.pick(&[1i64 << 16, 1 << 32, 1 << 53, 1 << 31]);
+            if r.bool() {
+                x
+            } else {
+                -x
+            }
+        }
         0..=2 => r.range_i64(-1000, 1000),
         3..=5 => {
             let k = r.below(64) as u32;
